@@ -83,14 +83,30 @@ def channel_parts(channel: str):
 class TapQueue(queue.Queue):
     """Drop-in for ``orchestrator.job_queue``: counts the master's gets; ``poll`` caps the poll timeout."""
 
-    def __init__(self, mon: Monitor, poll: Optional[float]):
+    def __init__(self, mon: Monitor, poll: Optional[float], hold_until_statuses: int = 0):
         super().__init__()
         self._mon, self._poll = mon, poll
+        # status backlog: once the job queue is empty the master stays in its poll (as if descheduled there) until this
+        # many status messages have been published by the workers, or 3 s have passed - then the poll times out as usual
+        self._hold = hold_until_statuses
+        self._held = False
 
     def get(self, block=True, timeout=None):
         if threading.current_thread().name == MASTER_NAME:
             with self._mon.lock:
                 self._mon.master_gets += 1
+            if self._hold and not self._held and timeout is not None and self.empty():
+                import time as _t
+
+                t_end = _t.monotonic() + 3.0
+                while _t.monotonic() < t_end and self.empty():
+                    with self._mon.lock:
+                        n = sum((self._mon.published.get("status") or {}).values())
+                    if n >= self._hold:
+                        break
+                    _t.sleep(0.002)
+                if self.empty():
+                    self._held = True
         if timeout is not None and self._poll is not None:
             timeout = min(timeout, self._poll)
         return super().get(block, timeout)
@@ -107,6 +123,18 @@ class SubTap:
             with mon.lock:
                 mon.tick += 1
                 mon.w_sweep_start[role] = mon.tick
+        hold = getattr(tap, "hold_cfg_until", 0)
+        if is_cfg and hold:
+            # status backlog: the workers only start taking jobs once the master has published all of them (busy workers
+            # that come back later), so no status is consumed while the master is still publishing
+            import time as _t
+
+            t_end = _t.monotonic() + 3.0
+            while _t.monotonic() < t_end:
+                with mon.lock:
+                    if sum((mon.published.get("cfg") or {}).values()) >= hold:
+                        break
+                _t.sleep(0.001)
         it = iter(self._sub)
         first = True
         while True:
